@@ -1215,9 +1215,9 @@ result_t NumberDataType::parseInput(const string inputStr, unsigned int* parsedV
         if (hasFlag(SIG)) {
           long signedValue = strtol(str, &strEnd, 0);
           if (errno == ERANGE
-          || (m_bitCount != 32 && (signedValue < 0L ? (signedValue < -(1L << (m_bitCount - 1)))
+          || (signedValue < 0L ? (signedValue < -(1L << (m_bitCount - 1)))
             : (signedValue >= (1L << (m_bitCount - 1)))
-          ))) {
+          )) {
             return RESULT_ERR_OUT_OF_RANGE;  // value out of range
           }
           if (signedValue < 0 && m_bitCount != 32) {
@@ -1226,10 +1226,11 @@ result_t NumberDataType::parseInput(const string inputStr, unsigned int* parsedV
             value = (unsigned int)signedValue;
           }
         } else {
-          value = (unsigned int)strtoul(str, &strEnd, 0);
-          if (errno == ERANGE || (m_bitCount != 32 && value >= (1U << m_bitCount))) {
+          unsigned long unsignedValue = strtoul(str, &strEnd, 0);
+          if (errno == ERANGE || unsignedValue >= (1UL << m_bitCount)) {
             return RESULT_ERR_OUT_OF_RANGE;
           }
+          value = (unsigned int)unsignedValue;
         }
         if (strEnd == nullptr || strEnd == str || (*strEnd != 0 && *strEnd != '.')) {
           return RESULT_ERR_INVALID_NUM;  // invalid value
